@@ -100,6 +100,25 @@ def csr_layout(draw, max_regs=6, dws=CSR_DWS, overlaps=True, high=None):
         if overlaps:
             lay["ov"] = draw(st.sampled_from([None, 0, 1, 1, 2, 3]))
         return lay
+    if draw(st.integers(0, 9)) == 0:
+        # "aliased" family: naturally aligned registers whose addresses agree in their low bits
+        # (slots that are multiples of 2**k), so that a finite sharing limit is only met once a
+        # particular high address bit is decoded - possibly the top one, with the highest register
+        # starting exactly at a power of two
+        dw = draw(st.sampled_from([1, 2, 4, 8] if dws is CSR_DWS else list(dws)))
+        k = draw(st.integers(1, 5))
+        slots = sorted(draw(st.lists(st.sampled_from([0, 1, 2, 3, 4, 5, 8, 16, 32]), min_size=2, max_size=max(2, min(max_regs, 5)), unique=True)))
+        regs, cursor = [], 0
+        for p_ in slots:
+            size = draw(st.sampled_from([x for x in (1, 1, 2, 4) if x <= (1 << k)]))
+            regs.append({"w": dw * size - draw(st.sampled_from([0, 0, 1]) if dw > 1 else st.just(0)),
+                         "acc": draw(st.sampled_from(["r", "w", "rw", "rw", "rw"])), "mode": "gap",
+                         "gap": (p_ << k) - cursor, "pad": 0})
+            cursor = (p_ << k) + size
+        lay = {"dw": dw, "al": 0, "regs": regs, "extra_aw": draw(st.integers(0, 1)), "family": "aliased"}
+        if overlaps:
+            lay["ov"] = draw(st.sampled_from([None, 0, 0, 0, 1, 1, 2]))
+        return lay
     dw = draw(st.sampled_from(dws))
     al = draw(st.sampled_from([0, 0, 0, 1, 2]))
     n = draw(st.integers(1, max_regs))
@@ -523,7 +542,7 @@ def csr_decoder_config(draw, max_subs=5, max_sub_aw=5, dws=CSR_DWS):
             "opts": draw(decoder_opts())}
 
 
-DECODER_OPTS = ("early_q", "alias_decoy", "replace_map", "flip_temp", "subclass")
+DECODER_OPTS = ("early_q", "alias_decoy", "replace_map", "flip_temp", "subclass", "drop_iface")
 
 
 def decoder_opts():
@@ -535,7 +554,9 @@ def decoder_opts():
     replace_map - dec.bus.memory_map is re-assigned (public setter) to a fresh map of the same geometry
                   before the first add()
     flip_temp   - add() receives wiring.flipped(iface) temporaries that nobody else references
-    subclass    - the decoder is an instance of a trivial subclass"""
+    subclass    - the decoder is an instance of a trivial subclass
+    drop_iface  - after add() the caller keeps only the signals of a subordinate interface, not the
+                  Interface object itself (the decoder has to keep alive what it was given)"""
     return st.fixed_dictionaries({k: st.sampled_from([False] * 5 + [True]) for k in DECODER_OPTS})
 
 
@@ -568,6 +589,27 @@ def _replace_map(dec, cfg):
     if cfg.get("opts", {}).get("replace_map"):
         old = dec.bus.memory_map
         dec.bus.memory_map = MemoryMap(addr_width=old.addr_width, data_width=old.data_width, alignment=old.alignment)
+
+
+class IfaceView:
+    """What is left of a subordinate interface when the caller dropped the object and kept its
+    signals and parameters."""
+    def __init__(self, iface):
+        self.__dict__.update({k: v for k, v in vars(iface).items() if not k.startswith("_")})
+        for k in ("addr_width", "data_width", "granularity", "features", "memory_map", "signature"):
+            if hasattr(iface, k):
+                setattr(self, k, getattr(iface, k))
+
+
+def _drop_ifaces(cfg, ifaces, external):
+    """With 'drop_iface' the returned list holds views; the Interface objects themselves become garbage."""
+    if not cfg.get("opts", {}).get("drop_iface") or external:
+        return ifaces
+    import gc
+    views = [IfaceView(f) for f in ifaces]
+    del ifaces[:]
+    gc.collect()
+    return views
 
 
 def _add_arg(cfg, iface):
@@ -638,6 +680,8 @@ def _build_csr_decoder(cfg, ifaces=None, prefix="w"):
     dec.verif_ctor = {"addr_width": aw, "data_width": cfg["dw"]}
     _replace_map(dec, cfg)
     given, ifaces = ifaces, []
+    given_external = given is not None
+    iface = None
     if given is None:
         given = []
         for i, s in enumerate(cfg["subs"]):
@@ -653,10 +697,17 @@ def _build_csr_decoder(cfg, ifaces=None, prefix="w"):
             dec.add(ghost, addr=1 << aw)
         except ValueError:
             dec.ghosts.append(ghost)
-    for j in cfg.get("early_fail", []):
+    for n_, j in enumerate(cfg.get("early_fail", [])):
         if given:
+            f = given[j % len(given)]
+            if (j + n_) % 2:
+                # the refused attempt goes through *another* interface object onto the same memory map
+                g_ = csr.Interface(addr_width=f.addr_width, data_width=f.data_width, path=(f"refused{n_}",))
+                g_.memory_map = f.memory_map
+                dec.ghosts.append(g_)
+                f = g_
             try:
-                dec.add(given[j % len(given)], addr=1 << aw)
+                dec.add(f, addr=1 << aw)
             except ValueError:
                 pass
     for i, (s, (ps, pe)) in enumerate(zip(cfg["subs"], plan)):
@@ -677,7 +728,9 @@ def _build_csr_decoder(cfg, ifaces=None, prefix="w"):
                  lambda: csr.Decoder(addr_width=aw, data_width=cfg["dw"], alignment=cfg["al"]),
                  lambda i, f: csr.Interface(addr_width=f.addr_width, data_width=f.data_width, path=(f"alias{i}",)),
                  lambda i: {"addr": plan[i][0]})
-    return dec, ifaces, plan
+    external = given_external
+    del given, iface
+    return dec, _drop_ifaces(cfg, ifaces, external), plan
 
 
 def _mid_elab(dec, cfg, i):
@@ -776,6 +829,8 @@ def _build_wb_decoder(cfg, ifaces=None, prefix="w"):
     dec.verif_ctor = {"addr_width": aw, "data_width": cfg["dw"], "granularity": cfg["g"], "features": cfg["feat"]}
     _replace_map(dec, cfg)
     given, ifaces = ifaces, []
+    given_external = given is not None
+    iface = None
     if given is None:
         given = []
         for i, s in enumerate(cfg["subs"]):
@@ -794,9 +849,16 @@ def _build_wb_decoder(cfg, ifaces=None, prefix="w"):
             dec.add(ghost, addr=oob)
         except ValueError:
             dec.ghosts.append(ghost)
-    for j in cfg.get("early_fail", []):
+    for n_, j in enumerate(cfg.get("early_fail", [])):
         if given:
             f = given[j % len(given)]
+            if (j + n_) % 2:
+                # the refused attempt goes through *another* interface object onto the same memory map
+                g_ = wishbone.Interface(addr_width=f.addr_width, data_width=f.data_width, granularity=f.granularity,
+                                        features=f.features, path=(f"refused{n_}",))
+                g_.memory_map = f.memory_map
+                dec.ghosts.append(g_)
+                f = g_
             try:
                 dec.add(f, addr=oob, sparse=cfg["subs"][j % len(given)].get("sparse", False))
             except ValueError:
@@ -821,4 +883,6 @@ def _build_wb_decoder(cfg, ifaces=None, prefix="w"):
                  lambda i, f: wishbone.Interface(addr_width=f.addr_width, data_width=f.data_width, granularity=f.granularity,
                                                  features=f.features, path=(f"alias{i}",)),
                  lambda i: {"addr": plan[i][0], "sparse": cfg["subs"][i].get("sparse", False)})
-    return dec, ifaces, plan
+    external = given_external
+    del given, iface
+    return dec, _drop_ifaces(cfg, ifaces, external), plan
